@@ -22,9 +22,9 @@ func gen(t *rapid.T) mqrig.Case {
 		pat = int(f[0] - '0')
 	}
 	switch pat {
-	case 0, 1:
-		return mqrig.GenWindDown(t)
-	case 2, 3:
+	case 0:
+		return mqrig.GenWindDown(t) // mostly in the class of the successor-release finding: kept small here (C17 uses it most)
+	case 1, 2, 3:
 		return mqrig.GenFailBurst(t)
 	case 4:
 		return mqrig.GenBacklog(t)
